@@ -849,9 +849,7 @@ def run(ctx, col: Collector):
 
     # ---------------------------------------------------------------- C01-enum (declared type: shared with C05)
     def enum_types():
-        from . import c05
-        sub = Collector(col.prop)
-        c05.run(ctx, sub)
+        sub = ctx.sub('c05', col.prop)
         n = 0
         for o in sub.obs:
             if o.rule in ('C05-enum', 'C05-schema') or (o.rule == 'C05-resolve' and 'locate' in o.construct):
